@@ -1,10 +1,9 @@
-(* C20/Refute.v — the two ways in which the code as it is falls short of the full statement, as concrete histories of the model
-   (both confirmed on the real code, known_findings/C20.jsonl):
+(* C20/Refute.v — the way in which the code as it is falls short of the full statement, as a concrete history of the model
+   (confirmed on the real code, known_findings/C20.jsonl):
    * clone_uncounted     — MessageStream::clone copies the match rule without counting it in `subscriptions`; dropping the clone
-                           unregisters the rule of the stream that is still alive, which from then on misses matching messages;
-   * async_drop_deadlock — MessageStream::async_drop awaits remove_match while it still owns its receiver; if its queue is full and
-                           the socket reader is blocked on it (holding msg_senders), remove_match (holding subscriptions) and the
-                           reader wait for each other for ever. *)
+                           unregisters the rule of the stream that is still alive, which from then on misses matching messages.
+   (The second finding of the first round, async_drop_deadlock, was repaired by commit 90a1ccff; the model follows the repaired
+   code and C20_progress holds without exception.) *)
 From ZV Require Import Base.Bytes Base.Res C19.Broadcast C19.BroadcastFacts C20.Model C20.Lemmas C20.Steps C20.Inv C20.Proofs.
 From Coq Require Import Lia.
 
@@ -31,133 +30,3 @@ Lemma clone_misses :
 Proof.
   split; [apply exec_reach, clone_exec|]. vm_compute. eexists. repeat split; reflexivity.
 Qed.
-
-(* ------------------------------------------------------------------ async_drop *)
-Definition wedge_trace : list label :=
-  [LAddStart 0 0 (Some 1); LAddCheck 0; LAddSubs 0; LAddSender 0;      (* stream 0 for rule 0, queue of 1 *)
-   LArrive (IMsg (sig 1)); LRead; LFan [0; 2]; LPush; LPush; LNext;    (* one message fills its queue *)
-   LArrive (IMsg (sig 2)); LRead; LFan [0; 2]; LPush;                  (* the reader now waits for room in channel 2 *)
-   LDropStart 0; LDropSubs 0].                                         (* async_drop: remove_match takes the entry away *)
-
-Definition wedge_state : sys := match exec all_match wedge_trace init with Some s => s | None => init end.
-
-Lemma wedge_exec : exec all_match wedge_trace init = Some wedge_state.
-Proof. vm_compute. reflexivity. Qed.
-
-(* the reader waits for room in channel c; the only stream on c is in the second half of its asynchronous drop *)
-Definition wedged (s : sys) (sid c : nat) : Prop :=
-  2 <= c /\ (exists it todo, reader s = RPush it (c :: todo) /\ try_push it (chan_at s c) = PFull) /\
-  lookup (drops s) sid = Some (R1 c) /\ (exists st r, lookup (streams s) sid = Some st /\ s_rule st = Some r) /\
-  (forall sid' st, lookup (streams s) sid' = Some st -> s_ch st = c -> sid' = sid) /\ c < length (chans s).
-
-Lemma wedge_wedged : wedged wedge_state 0 2.
-Proof.
-  unfold wedged. split; [lia|]. split; [|split; [|split; [|split]]].
-  - vm_compute. do 2 eexists. split; reflexivity.
-  - reflexivity.
-  - vm_compute. do 2 eexists. split; reflexivity.
-  - intros sid' st. vm_compute. destruct sid' as [|sid']; [reflexivity|]. discriminate.
-  - vm_compute. lia.
-Qed.
-
-Section Wedged.
-Variable matches : nat -> msg -> bool.
-Notation tstep := (Steps.tstep matches).
-Notation step := (Model.step matches).
-Notation exec := (Model.exec matches).
-
-Lemma wedged_busy s sid c : wedged s sid c -> subs_busy s = true /\ senders_held s = true /\ lookup (drops s) sid <> None.
-Proof.
-  intros (_ & (it & todo & Hrd & _) & Hd & (st & r & Hs & Hr) & _). split; [|split].
-  - destruct (subs_busy s) eqn:E; [reflexivity|]. exfalso. apply (not_busy_r1 s r c E). left. exists sid, st. tauto.
-  - unfold senders_held. now rewrite Hrd.
-  - congruence.
-Qed.
-
-Lemma wedged_frame s s' sid c : wedged s sid c -> reader s' = reader s -> lookup (drops s') sid = lookup (drops s) sid ->
-  chan_at s' c = chan_at s c -> length (chans s') = length (chans s) -> lookup (streams s') sid = lookup (streams s) sid ->
-  (forall sid' st, lookup (streams s') sid' = Some st -> s_ch st = c -> sid' = sid) -> wedged s' sid c.
-Proof.
-  intros (Hc & (it0 & todo0 & Hrd & Hfull) & Hd & Hst & Huniq & Hlen) Er Ed Ec El Es Hu.
-  split; [exact Hc|]. split; [exists it0, todo0; rewrite Er, Ec; tauto|]. split; [now rewrite Ed|]. split; [now rewrite Es|]. split; [exact Hu | now rewrite El].
-Qed.
-
-(* no step of anybody ends the wait *)
-Lemma wedged_step s l s' sid c : tstep s l s' -> wedged s sid c -> wedged s' sid c.
-Proof.
-  intros Hs W. destruct (wedged_busy _ _ _ W) as (Hb & Hh & Hnd). pose proof W as W0.
-  destruct W as (Hc & (it0 & todo0 & Hrd & Hfull) & Hd & (st0 & r0 & Hst & Hr0) & Huniq & Hlen).
-  assert (Hnl : forall sid' st, live s sid' st -> s_ch st <> c /\ sid' <> sid).
-  { intros sid' st [Hl Hdn]. split; [intros Hch; rewrite (Huniq _ _ Hl Hch) in Hdn; congruence | intros ->; congruence]. }
-  assert (Hfr : forall sid', fresh s sid' = true -> sid' <> sid).
-  { intros sid' Hf ->. unfold fresh in Hf. rewrite Hst in Hf. discriminate. }
-  destruct Hs; try congruence; try (unfold senders_held in *; rewrite Hrd in *; discriminate);
-    try (apply (wedged_frame s _ sid c W0); try reflexivity; assumption).
-  - (* a push that is skipped: not ours, ours is Full *) rewrite Hrd in H. inversion H; subst. destruct H0; congruence.
-  - (* a new unfiltered stream *) pose proof (Hfr _ H) as Hne. apply (wedged_frame s _ sid c W0); try reflexivity.
-    + apply chan_at_set_other. lia.
-    + cbn [chans with_streams set_chan with_chans]. apply length_upd.
-    + cbn [streams with_streams]. apply lookup_put_other. congruence.
-    + intros sid' st. cbn [streams with_streams]. destruct (Nat.eq_dec sid' sid0) as [->|Hn].
-      * rewrite lookup_put_same. intros E; inversion E; subst st. cbn. lia.
-      * rewrite lookup_put_other by assumption. apply Huniq.
-  - (* another stream is polled *) destruct (Hnl _ _ H) as [Hch Hne]. destruct H as [Hl Hdn]. apply (wedged_frame s _ sid c W0); try reflexivity.
-    + cbn [with_streams]. apply chan_at_set_other. congruence.
-    + cbn [chans with_streams set_chan with_chans]. apply length_upd.
-    + cbn [streams with_streams]. apply lookup_put_other. congruence.
-    + intros sid' st1. cbn [streams with_streams]. destruct (Nat.eq_dec sid' sid0) as [->|Hn].
-      * rewrite lookup_put_same. intros E; inversion E; subst st1. cbn [got_more s_ch]. intros; contradiction.
-      * rewrite lookup_put_other by assumption. apply Huniq.
-  - (* another stream is dropped *) destruct (Hnl _ _ H) as [Hch Hne]. destruct H as [Hl Hdn]. apply (wedged_frame s _ sid c W0); try reflexivity.
-    + unfold bury. cbn [with_tasks with_dead with_streams]. apply chan_at_set_other. congruence.
-    + unfold bury. cbn [chans with_tasks with_dead with_streams set_chan with_chans]. apply length_upd.
-    + unfold bury. cbn [streams with_tasks with_dead with_streams]. apply lookup_del_other. congruence.
-    + intros sid' st1. unfold bury. cbn [streams with_tasks with_dead with_streams]. destruct (Nat.eq_dec sid' sid0) as [->|Hn].
-      * rewrite lookup_del_same. discriminate.
-      * rewrite lookup_del_other by assumption. apply Huniq.
-  - destruct (Hnl _ _ H) as [Hch Hne]. destruct H as [Hl Hdn]. apply (wedged_frame s _ sid c W0); try reflexivity.
-    + unfold bury. cbn [with_tasks with_dead with_streams]. apply chan_at_set_other. congruence.
-    + unfold bury. cbn [chans with_tasks with_dead with_streams set_chan with_chans]. apply length_upd.
-    + unfold bury. cbn [streams with_tasks with_dead with_streams]. apply lookup_del_other. congruence.
-    + intros sid' st1. unfold bury. cbn [streams with_tasks with_dead with_streams]. destruct (Nat.eq_dec sid' sid0) as [->|Hn].
-      * rewrite lookup_del_same. discriminate.
-      * rewrite lookup_del_other by assumption. apply Huniq.
-  - (* another stream is cloned *) destruct (Hnl _ _ H) as [Hch Hne]. destruct H as [Hl Hdn]. pose proof (Hfr _ H0) as Hne2. apply (wedged_frame s _ sid c W0); try reflexivity.
-    + cbn [with_cloned with_streams]. apply chan_at_set_other. congruence.
-    + cbn [chans with_cloned with_streams set_chan with_chans]. apply length_upd.
-    + cbn [streams with_cloned with_streams]. apply lookup_put_other. congruence.
-    + intros sid' st1. cbn [streams with_cloned with_streams]. destruct (Nat.eq_dec sid' sid2) as [->|Hn].
-      * rewrite lookup_put_same. intros E; inversion E; subst st1. intros; contradiction.
-      * rewrite lookup_put_other by assumption. apply Huniq.
-  - (* set_max_queued on another stream *) destruct (Hnl _ _ H) as [Hch Hne]. apply (wedged_frame s _ sid c W0); try reflexivity; try assumption.
-    + apply chan_at_set_other. congruence.
-    + cbn [chans set_chan with_chans]. apply length_upd.
-  - (* another async_drop starts *) destruct (Hnl _ _ H) as [Hch Hne]. apply (wedged_frame s _ sid c W0); try reflexivity; try assumption.
-    cbn [drops with_drops]. apply lookup_put_other. congruence.
-  - destruct (Hnl _ _ H) as [Hch Hne]. destruct H as [Hl Hdn]. apply (wedged_frame s _ sid c W0); try reflexivity.
-    + unfold bury. cbn [with_tasks with_dead with_streams]. apply chan_at_set_other. congruence.
-    + unfold bury. cbn [chans with_tasks with_dead with_streams set_chan with_chans]. apply length_upd.
-    + unfold bury. cbn [streams with_tasks with_dead with_streams]. apply lookup_del_other. congruence.
-    + intros sid' st1. unfold bury. cbn [streams with_tasks with_dead with_streams]. destruct (Nat.eq_dec sid' sid0) as [->|Hn].
-      * rewrite lookup_del_same. discriminate.
-      * rewrite lookup_del_other by assumption. apply Huniq.
-Qed.
-
-(* ... so it lasts for ever: whatever anybody does afterwards, the socket reader never reads another message, `subscriptions`
-   stays locked (every add_match and remove_match that needs it waits), and the async_drop never returns *)
-Theorem wedged_forever tr s s' sid c : wedged s sid c -> exec tr s = Some s' ->
-  wedged s' sid c /\ subs_busy s' = true /\ senders_held s' = true /\ lookup (drops s') sid <> None /\
-  step LRead s' = None /\ step LPush s' = None /\ step (LDropSender sid) s' = None /\
-  (forall sid', step (LAddSubs sid') s' = None) /\ (forall n, step (LTaskSubs n) s' = None) /\ (forall sid', step (LDropSubs sid') s' = None).
-Proof.
-  revert s. induction tr as [|l tr IH]; intros s W He; cbn [Model.exec] in He.
-  - inversion He; subst s'. destruct (wedged_busy _ _ _ W) as (Hb & Hh & Hnd). split; [exact W|]. split; [exact Hb|]. split; [exact Hh|]. split; [exact Hnd|].
-    destruct W as (Hc & (it0 & todo0 & Hrd & Hfull) & Hd & (st0 & r0 & Hst & Hr0) & Huniq & Hlen).
-    unfold Model.step. rewrite Hrd, Hfull, Hd, Hh, Hb, Hst. cbn. repeat split; try reflexivity.
-    + intros sid'. destruct (lookup (adds s) sid') as [a|]; [|reflexivity]. destruct (a_pc a); reflexivity.
-    + intros n. destruct (nth_error (tasks s) n) as [[r pc]|]; [|reflexivity]. destruct pc; reflexivity.
-    + intros sid'. destruct (lookup (streams s) sid') as [st|]; [|reflexivity]. destruct (lookup (drops s) sid') as [[|c']|]; try reflexivity.
-  - destruct (step l s) as [s1|] eqn:E; [|discriminate]. apply step_tstep in E. exact (IH _ (wedged_step _ _ _ _ _ E W) He).
-Qed.
-
-End Wedged.
